@@ -93,7 +93,8 @@ structure Exp where
 /-! The rules are *strict* about the final QUIT: once a verdict is decided (a 5xx/4xx reply, every
 recipient refused, the reply to the final dot) nothing that happens afterwards changes it — in
 particular not a failing write of the QUIT command (`wfail = some .quit` plays no role in `expect`).
-The code as it stands does not meet this: see `Props.C09.C09_quit_corner`. -/
+The code meets this since /repo commit 7dc98ec (`Props.C09.C09_quit_corner`); before, a failing QUIT
+write replaced the verdict by "connection died". -/
 
 def expData (s : AScript) (rl : List Byte) (bother : Bool) (cs : List Nat) : Exp :=
   if bother = false then ⟨rl, .D⟩ else
@@ -235,7 +236,7 @@ The property is strict there (`expect` ignores `wfail = some .quit`): the decide
 the commands the server sees this means that a `K` need not be followed by QUIT on the wire when —
 and only when — the QUIT write is the one that failed (`qf`). (`verdictOK` and `kSound` need no such
 clause. The former lenient predicates `verdictOKq`/`kSoundQ`, which accepted "connection died" in place
-of a decided verdict, are gone: that behaviour is finding C09-quit-write-failure.) -/
+of a decided verdict, are gone: that behaviour was finding C09-quit-write-failure, fixed by 7dc98ec.) -/
 
 /-- `qf` = the QUIT write failed: then `K` does not require QUIT on the wire -/
 def wireOrderQ (a : Args) (enc : Bytes) (wire : Bytes) (o : Obs) (qf : Bool) : Bool :=
